@@ -53,10 +53,6 @@ func dispatch(rp replayFile, verbose bool) bool {
 		replayRecycle29(rp.Input)
 	case "stale41":
 		replayStale41(rp.Input)
-	case "jsonparsers":
-		replayJsonParsers(rp.Input)
-	case "leak50":
-		replayLeak50(rp.Input)
 	default:
 		return false
 	}
@@ -99,12 +95,10 @@ func main() {
 	rng := vh.NewRng(args.Seed)
 	sectionLineReader(rng.Fork("linereader"))
 	sectionDescs(rng.Fork("descs"))
-	sectionJsonParsers(rng.Fork("jsonparsers"))
 	sectionScanner(rng.Fork("scanner"))
 	sectionRotation(rng.Fork("rotation"))
 	sectionRace17(rng.Fork("race17"))
 	sectionRecycle29(rng.Fork("recycle29"))
 	sectionStale41()
-	sectionLeak50()
 	res.Write(args.Out)
 }
